@@ -322,7 +322,7 @@ def run(tier):
     states += tr.distinct
     trans += tr.generated
     # histories
-    recs, gen = [], []
+    recs, gen, jobs = [], [], []
     for k, (name, cs, nsim, depth) in enumerate(gen_runs(tier)):
         cfg = common.make_cfg(name, spec="GSpecSim" if nsim else "GSpecExh", constants=cs, invariants=c08.INVS + ["Emit"])
         if nsim:
@@ -332,7 +332,8 @@ def run(tier):
         rs = [x for x in r.records if "steps" in x]
         recs += rs
         gen.append({"config": name, "kind": "simulate" if nsim else "exhaustive", "histories": len(rs), "states": r.generated})
-    jobs = [{"menu": menu, "recs": ch} for ch in pool.chunks(recs, 6)]
+        chs = pool.chunks(rs, 6)
+        jobs += [{"menu": menu, "recs": ch, "final": bool(nsim) or tier != "quick" or j % 4 == 0} for j, ch in enumerate(chs)]
     results = pool.run_jobs("c17", "impl_replay", jobs, nworkers=NW)
     counters = {}
     old = c08.PROP
